@@ -28,6 +28,15 @@ for d in sorted(glob.glob(os.path.join(ROOT, "seeded", "*"))):
         verdict = f"MISSED ({det['tier']}, {det['wall_s']} s)"
     else:
         verdict = f"harness error (exit {det['exit']})"
+    for f in sorted(glob.glob(os.path.join(d, "detect_*.json"))):
+        try:
+            x = json.load(open(f))
+        except Exception:
+            continue
+        if x["exit"] == 1 and x["violations"] > 0:
+            verdict += f"; caught by the check of {x['property']} ({x['tier']}, {x['wall_s']} s)"
+        elif x["exit"] == 0:
+            verdict += f"; also missed by the check of {x['property']}"
     corpus = "yes" if os.path.exists(os.path.join(ROOT, "corpus", name[:3], name + ".json")) else ""
     rows.append(f"| {name} | {verdict} | {corpus} | {short} |")
 table = "| seed | check of its property | replay in corpus/ | change |\n|---|---|---|---|\n" + "\n".join(rows)
